@@ -71,3 +71,16 @@ def single_href_is_resolved(base, href, canonicalize, strip_fragment):
     if not ok or target == ref_base:
         return links == []
     return links == [target]
+
+
+from html import unescape
+
+
+def href_is_extracted(pre, href, post, quote):
+    """a document with one anchor outside any script block yields exactly its href, stripped and unescaped
+    (quote: the quoting character, '' for an unquoted value)"""
+    for c in href:
+        if c in "<>" or c == quote or (quote == "" and (c.isspace() or c in "\"'")):
+            return True       # would end the attribute / the tag early: another document
+    doc = pre + href + post
+    return list(urls_from_html(doc)) == [unescape(href.strip())] and list(urls_from_html(doc.encode("utf-8"))) == [unescape(href.strip())]
